@@ -286,6 +286,7 @@ def gen_model(rng, data_independent=False, allow=None, max_layers=5):
   n = rng.randrange(1, max_layers + 1)
   cur = kind
   spatial = 6
+  seqlen = INPUTS["seq"][0]
   for i in range(n):
     if cur == "img":
       if spatial <= 2 or rng.chance(0.15):
@@ -324,6 +325,12 @@ def gen_model(rng, data_independent=False, allow=None, max_layers=5):
         if not l["return_sequences"]:
           cur = "vec"
       else:
+        # keep the sequence length valid (a 'valid' convolution shortens it)
+        if l.get("padding") == "valid":
+          if seqlen - l["kernel"] + 1 < 1:
+            l["padding"] = "same"
+          else:
+            seqlen = seqlen - l["kernel"] + 1
         layers.append(l)
     else:
       f = rng.wpick(VEC_T + ([(_t_qadaptive, ADAPTIVE_W)]
